@@ -27,7 +27,7 @@ LEVEL_NOTE = ("Tolerance 1e-6 relative to the largest contributing node (float32
               "monitor is not bit-for-bit). Cell-edge ties (X or Y = k + 1/2) admit either neighbouring cell as 'own cell'.")
 RULE = ("case = one world x 3 subgrids x 2000 positions (kinds: random nodes, per-level linear, linear in x,y,z over a flat bottom). Non-trivial: land faces contribute, positions "
         "on edges/rim and depths outside the level range are present; distinct by world parameters.")
-MANDATORY = ["vertical_grid_from_Vinfo_Vstretching_2", "vertical_grid_from_Vinfo_file_without_Vtransform", "time_reversed_clock", "subgrid_with_negative_limits", "positions_compared", "land_face_contributes", "depth_above_top_level", "depth_below_bottom_level", "depth_on_level", "edge_tie_positions", "rim_positions",
+MANDATORY = ["e2e_displacement_of_a_particle_stored_behind_one_that_died", "vertical_grid_from_Vinfo_Vstretching_2", "vertical_grid_from_Vinfo_file_without_Vtransform", "time_reversed_clock", "subgrid_with_negative_limits", "positions_compared", "land_face_contributes", "depth_above_top_level", "depth_below_bottom_level", "depth_on_level", "edge_tie_positions", "rim_positions",
              "packed_storage", "packed_with_different_scale_factors", "subgrid_pairs_compared", "scalar_values_compared", "linear_levels_exact", "linear3d_exact", "convexity_checked", "vtransform2", "e2e_displacements_checked", "e2e_scalar_values_checked", "consecutive_update_values_compared", "second_file_with_other_packing", "later_frame_nonzero_on_land_faces_first_frame_zero", "grid_file_with_mask_u_and_mask_v"]
 ASSUMPTIONS = ["add_offset of packed u/v is zero (the code documents that it ignores it)", "positions inside the valid region of every subgrid used"]
 TIMEOUT = {"quick": 900, "thorough": 3400}
@@ -47,10 +47,10 @@ def _bump(sit, k, v=1):
     sit[k] = sit.get(k, 0) + int(v)
 
 
-def read_frame0(files, names):
-    """Raw arrays of the first frame with scaling applied in float64 (independent of ladim)."""
+def read_frame0(files, names, which=0):
+    """Raw arrays of the first frame (of file `which`) with scaling applied in float64 (independent of ladim)."""
     out = {}
-    with Dataset(files[0]) as nc:
+    with Dataset(files[which]) as nc:
         nc.set_auto_maskandscale(False)
         for n in names:
             v = nc.variables[n]
@@ -129,7 +129,10 @@ def run_e2e(case: dict[str, Any], wd: Path) -> dict[str, Any]:
             continue
         h = H[int(round(y)), int(round(x))]
         rows.append([C.T0, x, y, float(rng.uniform(-0.05, 1.1) * h) if rng.random() < 0.8 else 0.0])
-    run = dict(start=C.T0, stop=str(tadd(C.T0, 2 * dt)), dt=dt, advection="EF", subgrid=sub, extra_forcing=["temp"],
+    # particles stored early in the state die in the first step: the survivors' level data must still be their own in the next one
+    victims = sorted(int(v) for v in rng.choice(12, size=3, replace=False))
+    run = dict(start=C.T0, stop=str(tadd(C.T0, 3 * dt)), dt=dt, advection="EF", subgrid=sub, extra_forcing=["temp"],
+               ibm=dict(module="vmon.plugins.rec_ibm", kill={0: victims}, log=False),
                release=dict(columns=["release_time", "X", "Y", "Z"], rows=rows, header=True),
                state=dict(instance_variables=dict(temp="float"), default_values=dict(temp=0.0)),
                output=dict(period=dt, instance=dict(pid="i4", X="f8", Y="f8", Z="f8", temp="f8")))
@@ -144,29 +147,47 @@ def run_e2e(case: dict[str, Any], wd: Path) -> dict[str, Any]:
     raw = read_frame0(world["files"], ["u", "v", "temp"])
     ZR = world["G"]["zr"]
     recs = all_records(read_outputs(res.outputs))
-    r0, r1 = recs[0], recs[1]
-    pos1 = {int(p): k for k, p in enumerate(r1.pid)}
-    for k, p in enumerate(r0.pid):
-        x, y, z = float(r0.vars["X"][k]), float(r0.vars["Y"][k]), float(r0.vars["Z"][k])
-        eu, ev, (jc, ic, cand) = ref_velocity(raw, M, ZR, x, y, z)
-        vals = [float(raw["temp"][kk, jc, ic]) for kk in cand]
-        sit["e2e_scalar_values_checked"] = sit.get("e2e_scalar_values_checked", 0) + 1
-        if not any(abs(float(r0.vars["temp"][k]) - t) <= 1e-9 for t in vals):
-            V.append(C.viol(f"record 0: scalar instance variable temp of pid {p} at ({x:.4f},{y:.4f},Z={z:.3f}) = {float(r0.vars['temp'][k])}; the particle's own cell ({jc},{ic}) holds {vals} at the bracketing levels", **desc))
-            break
-        tx, ty = x + eu * dt / dx, y + ev * dt / dy
-        if int(p) not in pos1:
-            continue
-        inside = (i0 + 0.5 < tx < i1 - 1.5) and (j0 + 0.5 < ty < j1 - 1.5)
-        k1 = pos1[int(p)]
-        x1, y1 = float(r1.vars["X"][k1]), float(r1.vars["Y"][k1])
-        if inside and M[int(round(ty)), int(round(tx))] > 0:
-            sit["e2e_displacements_checked"] = sit.get("e2e_displacements_checked", 0) + 1
-            if abs(x1 - tx) > 1e-9 or abs(y1 - ty) > 1e-9:
-                V.append(C.viol(f"one Euler-forward step moved pid {p} from ({x:.6f},{y:.6f},Z={z:.3f}) to ({x1:.8f},{y1:.8f}); the file's u, v interpolated at the particle's own position give "
-                                f"({tx:.8f},{ty:.8f})", **desc))
+    raw1 = read_frame0(world["files"], ["u", "v"], which=1)
+    nfr = 1800 // dt
+    for n in (0, 1):
+        ra, rb = recs[n], recs[n + 1]
+        rawn = dict(raw)
+        if n:  # velocity advances linearly towards the next frame, the scalar keeps the latest frame's values
+            rawn["u"] = raw["u"] + (n / nfr) * (raw1["u"] - raw["u"])
+            rawn["v"] = raw["v"] + (n / nfr) * (raw1["v"] - raw["v"])
+            if any(v in ra.pid for v in victims):
+                V.append(C.viol(f"record {n} holds a particle the IBM removed in the step before ({victims}): pids {ra.pid.tolist()}", **desc))
                 break
-    return C.result(V[:2], sit, cnt, nontrivial=sit.get("e2e_displacements_checked", 0) > 0, key=f"e2e|{case['idx']}", sample=dict(desc, particles=len(r0.pid)))
+        posb = {int(p): k for k, p in enumerate(rb.pid)}
+        for k, p in enumerate(ra.pid):
+            x, y, z = float(ra.vars["X"][k]), float(ra.vars["Y"][k]), float(ra.vars["Z"][k])
+            if abs(x - np.floor(x) - 0.5) < 1e-6 or abs(y - np.floor(y) - 0.5) < 1e-6:
+                continue
+            if not ((i0 + 0.5 < x < i1 - 1.5) and (j0 + 0.5 < y < j1 - 1.5)) or M[int(round(y)), int(round(x))] < 1:
+                continue
+            eu, ev, (jc, ic, cand) = ref_velocity(rawn, M, ZR, x, y, z)
+            vals = [float(raw["temp"][kk, jc, ic]) for kk in cand]
+            sit["e2e_scalar_values_checked"] = sit.get("e2e_scalar_values_checked", 0) + 1
+            if not any(abs(float(ra.vars["temp"][k]) - t) <= 1e-9 for t in vals):
+                V.append(C.viol(f"record {n}: scalar instance variable temp of pid {p} at ({x:.4f},{y:.4f},Z={z:.3f}) = {float(ra.vars['temp'][k])}; the particle's own cell ({jc},{ic}) holds {vals} at the bracketing levels", **desc))
+                break
+            tx, ty = x + eu * dt / dx, y + ev * dt / dy
+            if int(p) not in posb:
+                continue
+            inside = (i0 + 0.5 < tx < i1 - 1.5) and (j0 + 0.5 < ty < j1 - 1.5)
+            k1 = posb[int(p)]
+            x1, y1 = float(rb.vars["X"][k1]), float(rb.vars["Y"][k1])
+            if inside and M[int(round(ty)), int(round(tx))] > 0:
+                sit["e2e_displacements_checked"] = sit.get("e2e_displacements_checked", 0) + 1
+                if n and int(p) > victims[0]:
+                    sit["e2e_displacement_of_a_particle_stored_behind_one_that_died"] = sit.get("e2e_displacement_of_a_particle_stored_behind_one_that_died", 0) + 1
+                if abs(x1 - tx) > 1e-9 or abs(y1 - ty) > 1e-9:
+                    V.append(C.viol(f"Euler-forward step {n} moved pid {p} from ({x:.6f},{y:.6f},Z={z:.3f}) to ({x1:.8f},{y1:.8f}); the file's u, v interpolated at the particle's own position give "
+                                    f"({tx:.8f},{ty:.8f}) (pids {victims} were removed in the first step)", **desc))
+                    break
+        if V:
+            break
+    return C.result(V[:2], sit, cnt, nontrivial=sit.get("e2e_displacements_checked", 0) > 0, key=f"e2e|{case['idx']}", sample=dict(desc, particles=len(recs[0].pid)))
 
 
 def run_case(case: dict[str, Any], wd: Path) -> dict[str, Any]:
